@@ -14,6 +14,7 @@
 //   5  atoms: integer literals (base 10 whatever the leading zeros), float literals, identifiers,
 //            number-identifier juxtaposition "2x" (= 2*x as one unit: y/2x = y/(2*x), y**2x = y**(2*x),
 //            (2x)**y = (2*x)**y)
+#include "bigints.h"
 #include "common.h"
 #include "key.h"
 #include <symengine/parser/parser.h>
@@ -773,6 +774,31 @@ int main(int argc, char **argv)
         mk_space("C:leaves=4,prefix=0,6leaves", {"x", "y", "2", "10", ".5", "2x"}, 4, 4, 0);
         mk_space("B:leaves<=3,prefix<=2,6leaves", {"x", "2", "08", ".5", "2x", "3.5y"}, 1, 3, 2);
         mk_space("D:leaves=4,prefix<=1,3leaves", {"x", "2", "2x"}, 4, 4, 1);
+    }
+    // integer literals next to every representation boundary (int / long / unsigned long / limb sizes, decimal digit
+    // counts around LONG_MAX): alone, zero-padded, as the numeric part of an implicit multiplication, under a prefix
+    // sign, and as an operand of every binary operator next to x
+    {
+        std::vector<std::string> lit, few = {"x"};
+        for (auto &n : verif::boundary_integers(false)) {
+            std::string t = verif::bstr(n);
+            lit.push_back(t);
+            lit.push_back("0" + t);
+        }
+        Space sp;
+        sp.name = "E:boundary-literals,leaves=1,prefix<=1";
+        for (auto &t : lit)
+            sp.menu.leaves.push_back(mkleaf(t));
+        for (auto &n : verif::boundary_integers(false))
+            sp.menu.leaves.push_back(mkleaf(verif::bstr(n) + "x", verif::bstr(n), "x"));
+        sp.menu.ipow[0] = mkleaf("2x", "2", "x");
+        sp.menu.ipow[1] = mkleaf("3.5y", "3.5", "y");
+        sp.build(1, 1, 1);
+        spaces.push_back(sp);
+        for (const char *t : {"2147483648", "9223372036854775807", "9223372036854775808", "9999999999999999999", "10000000000000000000",
+                              "18446744073709551616"})
+            few.push_back(t);
+        mk_space("F:boundary-literals,leaves=2,prefix=0", few, 2, 2, 0);
     }
     // the spaces overlap on their common sub-menus; harmless (the overlap is small)
 
